@@ -271,6 +271,51 @@ def correspond(ctx, scale):
             st = vqrec.cb_state(layer._codebook)
             if not st['initted'] or abs(sum(st['cluster_size'][0]) - 10) > 1e-6:
                 failures.append({'key': 'rvq-layer-init', 'what': f'ResidualVQ layer {li}: initted={st["initted"]} sum(cluster_size)={sum(st["cluster_size"][0])} (expected 10 tokens)', 'case': dict(layer=li)})
+    # ---------- (d) a LIVE checkpoint handle taken before the first batch (round 11, seed C14-k): module.state_dict() hands out views of the buffers; the
+    # initialisation writes INTO the buffers (flag included), so the handle shows the initialised, trained state - and restoring it later (into a fresh
+    # module, or into the trained module itself) must not make the next call initialise again
+    import copy as _copy
+    for hi in range(6 if not ctx.thorough else 18):
+        cos_h = hi % 2 == 1
+        kind_h = ['vq', 'vq-heads', 'rvq'][(hi // 2) % 3]
+        try:
+            torch.manual_seed(9200 + hi)
+            def mk_h():
+                if kind_h == 'vq':
+                    return VectorQuantize(dim=2, codebook_size=4, kmeans_init=True, kmeans_iters=2, use_cosine_sim=cos_h, decay=0.5)
+                if kind_h == 'vq-heads':
+                    return VectorQuantize(dim=4, codebook_dim=2, heads=2, separate_codebook_per_head=True, codebook_size=4, kmeans_init=True, kmeans_iters=2, use_cosine_sim=cos_h, decay=0.5)
+                return ResidualVQ(dim=2, num_quantizers=2, codebook_size=4, kmeans_init=True, kmeans_iters=2, use_cosine_sim=cos_h, decay=0.5)
+            mod_h = mk_h()
+            handle = mod_h.state_dict()                      # live views, taken BEFORE the first batch
+            mod_h.train()
+            dim_h = 4 if kind_h == 'vq-heads' else 2
+            for _ in range(2):
+                mod_h(torch.randn(2, 12, dim_h))
+            evaluations += 1
+            dist['live_handle_histories'] = dist.get('live_handle_histories', 0) + 1
+            now = mod_h.state_dict()
+            stale = [k_ for k_ in now if k_ in handle and not torch.equal(torch.nan_to_num(handle[k_].float()), torch.nan_to_num(now[k_].float()))]
+            if stale:
+                failures.append({'key': f'{kind_h}:live-handle-stale:{stale[0].split(".")[-1]}', 'what': f'{kind_h} (cosine={cos_h}): the state_dict() handle taken before the first batch no longer shows the module state after training: '
+                                 f'{stale[:3]} (an initialisation that rebinds a buffer instead of writing into it)', 'case': dict(kind=kind_h, cosine=cos_h)})
+                continue
+            # restoring the handle: a fresh module, and the trained module itself (a no-op)
+            fresh_h = mk_h()
+            fresh_h.load_state_dict({k_: v_.clone() for k_, v_ in handle.items()})
+            mod_h.load_state_dict(handle)
+            for nm_h, m_h in (('fresh module', fresh_h), ('the trained module itself', mod_h)):
+                m_h.eval()
+                before_h = {k_: v_.clone() for k_, v_ in m_h.state_dict().items()}
+                with torch.no_grad():
+                    m_h(torch.randn(2, 12, dim_h) * 3.0)
+                ch_h = [k_ for k_, v_ in m_h.state_dict().items() if not torch.equal(torch.nan_to_num(v_.float()), torch.nan_to_num(before_h[k_].float()))]
+                if ch_h:
+                    failures.append({'key': f'{kind_h}:live-handle-restore-reinitialises', 'what': f'{kind_h} (cosine={cos_h}): after restoring the construction-time state_dict() handle into {nm_h}, '
+                                     f'an evaluation call changed {ch_h[:3]} (the codebook was initialised a second time)', 'case': dict(kind=kind_h, cosine=cos_h)})
+                    break
+        except Exception as ex:
+            failures.append({'key': f'{kind_h}:live-handle:exception:{type(ex).__name__}', 'what': repr(ex)[:200], 'case': dict(kind=kind_h, cosine=cos_h)})
     bad, broken = core.run_cases(ctx, 'c14', HEADER, cases, per_file=40)
     for name, out in broken:
         failures.append({'key': f'coq-eval:{name}', 'what': 'case file did not evaluate: ' + out, 'case': {'file': name}})
